@@ -209,3 +209,10 @@ Section Dict.
     destruct (Nat.eqb k k') eqn:E; [apply Nat.eqb_eq in E; subst; tauto|]. f_equal; apply IH; tauto.
   Qed.
 End Dict.
+
+Lemma In_aset_weak {V} k (v : V) d e : In e (aset k v d) -> e = (k, v) \/ In e d.
+Proof.
+  induction d as [|[k' v'] tl IH]; simpl.
+  - intros [H|[]]; auto.
+  - destruct (Nat.eqb k k'); simpl; intros [H|H]; auto. apply IH in H as [H|H]; auto.
+Qed.
